@@ -4,7 +4,7 @@ import itertools, os
 from . import core, extract, programs
 
 ALPHABET = ['"', '\\', ' ', '\t', '\n', '\r', 'n', 'r', 't', 'é', 'a']
-EXTRA = [' ', ' ', '　', '\x0b', '\x0c', '\x85', 'e', 'f', '#', ',', ';', '|', '*', '-', '0', '\U0001F600', '\x01', '\x7f']
+EXTRA = [' ', ' ', '　', '\x0b', '\x0c', '\x85', 'e', 'f', '#', ',', ';', '|', '*', '-', '/', '0', '\U0001F600', '\x01', '\x7f']
 OPS_WITH_ARGS = [7, 9, 22, 24, 12, 18, 46, 19, 60]
 
 
